@@ -27,6 +27,7 @@ CLASS_MODULE = {
     "RendererHTML": "markdown_it.renderer",
     "Delimiter": "markdown_it.rules_inline.state_inline",
     "_Result": "markdown_it.helpers.parse_link_title",
+    "Scanned": "markdown_it.rules_inline.state_inline",
 }
 
 SCHEMA = {
@@ -39,7 +40,7 @@ SCHEMA = {
     "StateInline": {
         "src": "str", "md": "obj:MarkdownIt", "env": "opaque", "tokens": "tokseq", "tokens_meta": "opaque",
         "pos": "int", "posMax": "int", "level": "int", "pending": "str", "pendingLevel": "int",
-        "cache": "intmap", "delimiters": "opaque", "_prev_delimiters": "opaque", "backticks": "intmap",
+        "cache": "intmap", "delimiters": "reclist:Delimiter", "_prev_delimiters": "opaque", "backticks": "intmap",
         "backticksScanned": "bool", "linkLevel": "int",
     },
     "StateCore": {"src": "str", "md": "obj:MarkdownIt", "env": "opaque", "tokens": "opaque", "inlineMode": "bool"},
@@ -55,7 +56,9 @@ SCHEMA = {
         "core": "obj:ParserCore", "renderer": "opaque", "linkify": "opaque", "utils": "opaque", "helpers": "opaque",
     },
     # abstract view of a token in a children list: only the fields the typographic rules look at
-    "TokenA": {"type": "atom", "info": "atom", "content": "atom", "level": "int", "nesting": "int", "children": "atom"},
+    "TokenA": {"type": "atom", "info": "atom", "content": "atom", "level": "int", "nesting": "int", "children": "atom", "tag": "atom", "markup": "atom"},
+    "Delimiter": {"marker": "int", "length": "int", "token": "int", "end": "int", "open": "bool", "close": "bool"},
+    "Scanned": {"can_open": "bool", "can_close": "bool", "length": "int"},
     "StateCoreJ": {"tokens": "reclist:TokenA"},
     "StateInlineJ": {"tokens": "reclist:TokenA", "delimiters": "optlist", "tokens_meta": "optlist"},
     "_Result": {"ok": "bool", "pos": "int", "lines": "int", "str": "str"},
